@@ -45,7 +45,7 @@ func (globScen) Decode(raw json.RawMessage) (any, error) {
 	return &c, err
 }
 func (globScen) Rule(string) string {
-	return "case = a tree that is a subset of a pool of 16 paths (top-level and nested files, dot-files and dot-directories at top level and nested, names sorting before and after the dot entries, empty directories) and 1-4 of 22 patterns (*.ext, **/*.ext, dir/*, */*, **, dir/**, dir/**/*.ext, {a,b} forms) used as dependency and output patterns of a task; the tree evolves for 1-4 steps (files and hidden entries added/removed) and every state is expanded twice by fresh file.New + SpokFile.Run (real parser, file, doublestar; stub shell runner). Oracle: regular files of SpokFile.Globs[pattern] == independent reference matcher over the model tree, identical on re-expansion. distinct_nontrivial = distinct (pattern, tree state) pairs."
+	return "case = a tree that is a subset of a pool of 16 paths (top-level and nested files, dot-files and dot-directories at top level and nested, names sorting before and after the dot entries, empty directories; one tree in six contains a symbolic link to one of its directories: files reached only through it are accepted either way, everything else stays exact) and 1-4 of 22 patterns (*.ext, **/*.ext, dir/*, */*, **, dir/**, dir/**/*.ext, {a,b} forms) used as dependency and output patterns of a task; the tree evolves for 1-4 steps (files and hidden entries added/removed) and every state is expanded twice by fresh file.New + SpokFile.Run (real parser, file, doublestar; stub shell runner). Oracle: regular files of SpokFile.Globs[pattern] == independent reference matcher over the model tree, identical on re-expansion. distinct_nontrivial = distinct (pattern, tree state) pairs."
 }
 
 var glPool = []string{"a.js", "z.js", "m.txt", "src/a.js", "src/b.txt", "src/deep/c.js", ".x.js", ".d/a.js", "src/.h.js", "src/.hd/e.js",
